@@ -145,12 +145,17 @@ func main() {
 	}
 	extraEnv := []string{}
 	if *prop == "C20" {
-		for _, v := range []string{"v1.5.0", "v2.0.0", "v2.1.0-rc1", ""} {
+		for _, v := range []string{"v1.5.0", "v2.0.0", "v2.1.0-rc1", "", "v2.0.0-pkg"} {
 			out := filepath.Join(scratch, "crs-toolchain-"+v)
+			ld := "-X main.version=" + v
 			if v == "" {
 				out = filepath.Join(scratch, "crs-toolchain-noversion")
 			}
-			if o, err := run(repoDir(), goEnv(), "go", "build", "-tags", "verif", "-ldflags", "-X main.version="+v, "-o", out, "."); err != nil {
+			if v == "v2.0.0-pkg" {
+				// version 2.0.0 with the full set of build variables, as a distribution's own build sets them
+				ld = "-X main.version=v2.0.0 -X main.commit=0f60301 -X main.date=2026-01-02T03:04:05Z -X main.builtBy=homebrew"
+			}
+			if o, err := run(repoDir(), goEnv(), "go", "build", "-tags", "verif", "-ldflags", ld, "-o", out, "."); err != nil {
 				fmt.Printf("ERROR cannot build %s: %v\n%s\n", repoDir(), err, o)
 				cleanupAndExit(exitInfra)
 			}
